@@ -508,6 +508,9 @@ def condition_from_proto(condition: v2.program_pb2.Arg) -> Condition:
         else:
             expr = arg_from_proto(condition)
             return SympyCondition(expr)
+    elif which == 'symbol':
+        # A bare symbol, e.g. `op.with_classical_controls(sympy.Symbol('m'))` (true iff m is non-zero).
+        return SympyCondition(sympy.Symbol(condition.symbol))
     else:
         raise ValueError(f'Unrecognized condition {condition}')  # pragma: nocover
 
